@@ -10,7 +10,7 @@ MODES = {'plain': 6, 'racing_try': 4, 'hooks': 1, 'cyclic': 1, 'cancel': 2}
 
 def run(chk):
     ok = core.standard_proof_phase(chk, "C05", gen_needed=())
-    chk.notes["system_theorems"] = ['c05_complete_once_partial', 'c05_monitor', 'c05_summary_before_completion', 'c05_progress', 'c05_rounds_bounded', 'c05_complete_only_when_all_done', 'c05_round_maximal']
+    chk.notes["system_theorems"] = ['c05_complete_once_partial', 'c05_monitor', 'c05_summary_before_completion', 'c05_progress', 'c05_rounds_bounded', 'c05_complete_only_when_all_done', 'c05_round_maximal', 'c05_canceled_submission_completes_partial']
     chk.notes["partial"] = 'proved: safety half, progress of a round from a quiescent state (c05_progress), bound on successful submissions (c05_rounds_bounded). completion flag only when every job has a result in fault-free acyclic runs (c05_complete_only_when_all_done); no starvation below max-nodes is a guard of the acceptor (round_maximal) every impl trace must satisfy (c05_round_maximal) and is proved for the batching function (c07_round_maximal). NOT proved in Coq: a started round reaches its completion check (no scheduling in an acceptor): decided on impl by oracles over all explored fault-free schedules (incl. the refused-last-node race)'
     syscheck.system_phase(chk, "C05", MODES, n_quick=160, n_thorough=3000, also=(), directed=("try_races_with_last_node",))
 
